@@ -64,6 +64,7 @@ type c02Cfg struct {
 	insts   []c02InstCfg
 	cb      bool // an observable gauge with a callback is registered (it never observes anything)
 	to      bool // the periodic readers get a short timeout (tickx / flushx)
+	producers bool // periodic readers get a gate-able external Producer (forced overlap scripts)
 	hooks   bool // every instrument gets a view installing a hook exemplar reservoir (collectx / tickx / flushx)
 }
 
@@ -237,7 +238,37 @@ func c02Format(cfg c02Cfg, stamp, ridx int, err error, rm *metricdata.ResourceMe
 }
 
 // c02Exporter records every payload it is given (it always accepts).
+// c02Gate parks a callee until the harness releases it.
+type c02Gate struct{ parked, release chan struct{} }
+
+func c02NewGate() *c02Gate { return &c02Gate{make(chan struct{}), make(chan struct{})} }
+
+// c02Producer is an external Producer (WithProducer) that produces nothing; the reader runs it between collecting from
+// the SDK and exporting, so a gate here parks an interval export / ForceFlush that HAS collected but NOT yet exported.
+type c02Producer struct {
+	mu   sync.Mutex
+	gate *c02Gate
+}
+
+func (p *c02Producer) set(g *c02Gate) {
+	p.mu.Lock()
+	p.gate = g
+	p.mu.Unlock()
+}
+func (p *c02Producer) Produce(context.Context) ([]metricdata.ScopeMetrics, error) {
+	p.mu.Lock()
+	g := p.gate
+	p.gate = nil
+	p.mu.Unlock()
+	if g != nil {
+		close(g.parked)
+		<-g.release
+	}
+	return nil, nil
+}
+
 type c02Exporter struct {
+	gate *c02Gate // guarded by sys.mu
 	sys  *c02Sys
 	ridx int
 	cfg  c02ReaderCfg
@@ -251,7 +282,21 @@ func (e *c02Exporter) Temporality(k InstrumentKind) metricdata.Temporality {
 	return e.cfg.tc
 }
 func (e *c02Exporter) Aggregation(k InstrumentKind) Aggregation { return e.cfg.aggregation(k) }
-func (e *c02Exporter) Export(_ context.Context, rm *metricdata.ResourceMetrics) error {
+func (e *c02Exporter) Export(ctx context.Context, rm *metricdata.ResourceMetrics) error {
+	// a gated export (forced scripts): a slow exporter that honours its context — the payload is accepted only if the
+	// harness releases it before the context ends
+	e.sys.mu.Lock()
+	g := e.gate
+	e.gate = nil
+	e.sys.mu.Unlock()
+	if g != nil {
+		close(g.parked)
+		select {
+		case <-ctx.Done():
+			return ctx.Err()
+		case <-g.release:
+		}
+	}
 	// rm is pooled by the reader: everything is extracted before returning
 	e.sys.mu.Lock()
 	if e.sys.stamp >= 0 {
@@ -318,10 +363,20 @@ type c02Sys struct {
 	mu      sync.Mutex
 	stamp   int         // current op index (seq leg); <0: discard
 	stamps  map[int]int // per-reader stamp override (conc leg: collector id)
+	seqStamps []int     // forced scripts: stamps handed out in export order (guarded by mu)
+	prods   []*c02Producer // per reader (nil unless cfg.producers and the reader is periodic)
 	recs    []string
 }
 
 func (s *c02Sys) stampFor(r int) int {
+	if len(s.seqStamps) > 0 {
+		// forced scripts: the exports of one script are stamped in the order in which they reach the exporter
+		v := s.seqStamps[0]
+		if len(s.seqStamps) > 1 {
+			s.seqStamps = s.seqStamps[1:]
+		}
+		return v
+	}
 	if v, ok := s.stamps[r]; ok {
 		return v
 	}
@@ -353,7 +408,14 @@ func c02New(cfg c02Cfg) *c02Sys {
 			if cfg.to {
 				to = c02ShortTimeout
 			}
-			r := NewPeriodicReader(e, WithInterval(time.Hour), WithTimeout(to))
+			popts := []PeriodicReaderOption{WithInterval(time.Hour), WithTimeout(to)}
+			var prod *c02Producer
+			if cfg.producers {
+				prod = &c02Producer{}
+				popts = append(popts, WithProducer(prod))
+			}
+			r := NewPeriodicReader(e, popts...)
+			s.prods = append(s.prods, prod)
 			s.ticks = append(s.ticks, <-c02TickCh)
 			s.exps = append(s.exps, e)
 			s.readers = append(s.readers, r)
@@ -365,6 +427,7 @@ func c02New(cfg c02Cfg) *c02Sys {
 				}
 				return rc.tc
 			}), WithAggregationSelector(rc.aggregation))
+			s.prods = append(s.prods, nil)
 			s.ticks = append(s.ticks, nil)
 			s.exps = append(s.exps, nil)
 			s.readers = append(s.readers, r)
